@@ -12,7 +12,7 @@ from .expr import Expr, render
 from .prov import Prov
 from .resultflow import ResultFlow
 
-VERIF = "/verif"
+VERIF = os.path.dirname(os.path.dirname(os.path.abspath(__file__)))
 
 
 class Out:
@@ -134,19 +134,19 @@ class Ctx:
             self._exprs[body.cache_id] = e
         return e
 
-    def inl(self, body, skip=None, tag=None, sugar=False):
+    def inl(self, body, skip=None, tag=None, sugar=False, subst=None):
         """The body with crate-local plain function calls virtually inlined (DESIGN §3.2); with
         sugar=True combinators and iterator pipelines are expanded too (engine.desugar)."""
         from .inline import inlined
         # the view is an aid: if building it trips over an unforeseen MIR shape, fall back to the
         # plainer view (the rules then see the function as written) instead of failing the check
         try:
-            return inlined(self.facts, body, skip=skip, tag=tag, sugar=sugar)
+            return inlined(self.facts, body, skip=skip, tag=tag, sugar=sugar, subst=subst)
         except Exception as e:          # noqa: BLE001 - recorded, not hidden
             self.view_fallbacks.append("%s: %s view failed (%s: %s)" % (body.id, "sugar" if sugar else "inline", type(e).__name__, e))
             if sugar:
                 try:
-                    return inlined(self.facts, body, skip=skip, tag=(tag or "x") + "-nosugar", sugar=False)
+                    return inlined(self.facts, body, skip=skip, tag=(tag or "x") + "-nosugar", sugar=False, subst=subst)
                 except Exception:       # noqa: BLE001
                     pass
             return body
@@ -198,6 +198,9 @@ class Ctx:
             entries = []
             closure_of = {}
             ptr_of = {}
+            fnargs = {}
+            args_of = {}
+            entry_args = {}
             for i, j, s in b.assigns():
                 rv = s["rv"]
                 if rv["k"] == "agg" and rv.get("agg") == "closure":
@@ -212,19 +215,42 @@ class Ctx:
                     k = rv["op"].get("k")
                     if k and "fn" in k:
                         ptr_of[s["lhs"]["l"]] = k["fn"]
+                        fnargs[k["fn"] + "@" + str(s["lhs"]["l"])] = k.get("fn_args") or ""
+                        args_of[s["lhs"]["l"]] = k.get("fn_args") or ""
                 elif rv["k"] == "agg" and rv.get("agg") == "tuple" and len(rv["ops"]) == 2:
                     k0 = rv["ops"][0].get("k")
                     p1 = rv["ops"][1].get("m") or rv["ops"][1].get("c")
                     if k0 and f.const_str(k0) is not None and p1 and p1["l"] in ptr_of:
                         entries.append((f.const_str(k0), ptr_of[p1["l"]]))
+                        entry_args[f.const_str(k0)] = args_of.get(p1["l"], "")
             if entries and any("ValidatorDetector" in (l["ty"] or "") for l in b.locals):
                 table = (b, entries)
+                table_args = entry_args
                 break
         if table is None:
             roles["problems"].append("detector factory table not found")
             return roles
         roles["factory_table_body"] = table[0].id
         roles["factory_const"] = table[0].defpath
+        # a generic factory used with explicit type arguments (`boxed::<KeepSortedDetector>`)
+        fsubst = {}
+        for name, factory in table[1]:
+            fb0 = f.body(factory)
+            m_a = re.search(r"::<(.*)>$", table_args.get(name, "") or "")
+            gen = (fb0.d.get("generics") or []) if fb0 is not None else []
+            if m_a and gen:
+                parts, depth, cur = [], 0, ""
+                for ch in m_a.group(1):
+                    if ch == "," and depth == 0:
+                        parts.append(cur.strip())
+                        cur = ""
+                        continue
+                    depth += ch in "<([" 
+                    depth -= ch in ">)]"
+                    cur += ch
+                parts.append(cur.strip())
+                if len(parts) == len(gen):
+                    fsubst[name] = dict(zip(gen, parts))
         for name, factory in table[1]:
             info = {"name": name, "factory": factory, "problems": []}
             fb = f.body(factory)
@@ -234,6 +260,8 @@ class Ctx:
                     rv = s["rv"]
                     if rv["k"] == "cast" and "Unsize" in rv["kind"] and rv.get("from_box_adt"):
                         det_adt = rv["from_box_adt"]
+            if det_adt in (fsubst.get(name) or {}):
+                det_adt = fsubst[name][det_adt]
             info["detector_adt"] = det_adt
             detect = f.impl_method(r"ValidatorDetector$", det_adt, "detect") if det_adt else None
             info["detect"] = detect.id if detect else None
@@ -259,9 +287,131 @@ class Ctx:
                 validate = f.impl_method(trait, val_adts[0], "validate")
             info["validate"] = validate.id if validate else None
             if validate is None:
+                # the shape reading failed (a data-driven detector, a generic factory, a blanket impl): walk the code
+                try:
+                    m = self._roles_by_model(name, factory, fsubst.get(name))
+                except Exception as e:      # noqa: BLE001
+                    m = None
+                    info["problems"].append("model: %s: %s" % (type(e).__name__, e))
+                if m and m.get("validate"):
+                    info.update(m)
+                    validate = True
+            if not validate:
                 info["problems"].append("validate impl not found")
             roles["validators"][name] = info
         return roles
+
+    def _roles_by_model(self, name, factory, subst):
+        """Who detects and who validates `name`, found by walking the code instead of reading its shape: the
+        factory is walked (helpers and `const fn` initialisers inlined) to the detector *value* it boxes; that
+        value's `detect` - the impl for its type, or a blanket impl instantiated for it - is walked on a block on
+        which every attribute is present, which yields the validator it creates (`ValidatorType::Sync / Async`
+        of a boxed V) and the attribute keys it asked for. Returns a dict of role fields, or None."""
+        from . import casewalk as CW
+        from . import listmodel as LM
+        from . import strmodel as SM
+        f = self.facts
+        fb = f.body(factory)
+        if fb is None:
+            return None
+        std, lm, sm = CW.std_hooks(), LM.hooks(), SM.hooks()
+        asked = []
+
+        def hook(w, bb, t, argv, env):
+            nm = factsmod.callee_name(t)
+            if re.search(r"HashMap::<K, V, S, A>::(get|contains_key)$", nm) and len(argv) > 1:
+                k = w.deref_val(env, argv[1])
+                if CW.is_const(k) and isinstance(k[1], str):
+                    asked.append(k[1])
+                    if nm.endswith("contains_key"):
+                        return CW.const(1)
+                    return CW.adt("std::option::Option", "Some", 1, [("0", CW.const("x"))])
+                return None
+            if re.search(r"default::Default>?::default$", nm):
+                st = t.get("self_ty") or ""
+                ad = f.adts.get(st)
+                if ad is not None and len(ad.get("variants", [])) == 1 and not ad["variants"][0].get("fields"):
+                    return CW.adt(st, ad["variants"][0].get("name"), 0, [])
+            for hk in (sm, lm, std):
+                r_ = hk(w, bb, t, argv, env)
+                if r_ is not None:
+                    return r_
+            if os.environ.get("BW_DEBUG_MODEL"):
+                print("roles model: unknown call", nm, [str(a)[:70] for a in argv])
+            return None
+
+        def walk_returns(view, env):
+            rets = set()
+            w = CW.Walk(self, view, [hook], max_states=4000)
+
+            def on_visit(bb, e):
+                tm = view.blocks[bb]["term"]
+                if tm and tm["k"] == "return":
+                    rets.add(w.deref_val(e, e.get(0, CW.TOP)))
+            w.on_visit = on_visit
+            try:
+                w.explore(0, dict(env))
+            except CW.Limit:
+                return set()
+            return rets
+        fv = self.inl(fb, skip=lambda cb: False, tag="roles-model", sugar=True, subst=subst or None)
+        rets = walk_returns(fv, {})
+        if len(rets) != 1:
+            return None
+        dv = next(iter(rets))
+        if dv[0] == "sym" and dv[1] == "boxed":
+            det_adt, dself = dv[2], None
+        elif dv[0] == "adt":
+            det_adt, dself = dv[1], dv
+        else:
+            return None
+        detect = f.impl_method(r"ValidatorDetector$", det_adt, "detect")
+        dsub = None
+        if detect is None:
+            # a blanket impl (`impl<D: Small> ValidatorDetector for D`), instantiated for this type
+            for imp in f.impls_of_trait(r"validators::ValidatorDetector$"):
+                st = imp.get("self_ty") or ""
+                if re.match(r"^[A-Z]\w*$", st) and not imp.get("self_adt"):
+                    for m in imp.get("methods", []):
+                        if m.get("name") == "detect" and f.body(m.get("def") or "") is not None:
+                            detect, dsub = f.body(m["def"]), {st: det_adt}
+        if detect is None:
+            return None
+        dview = self.inl(detect, skip=lambda cb: False, tag="roles-model", sugar=True, subst=dsub)
+        bwc = f.adts.get("blockwatch::blocks::BlockWithContext") or {}
+        flags = [x["name"] for vv in bwc.get("variants", [])[:1] for x in vv.get("fields", []) if x["ty"] == "bool"]
+        block = CW.adt("blockwatch::blocks::Block", "Block", 0, [("attributes", CW.sym("ATTRS"))])
+        env = {-9: CW.adt("blockwatch::blocks::BlockWithContext", "BlockWithContext", 0, [("block", block)] + [(x, CW.const(1)) for x in flags]), 2: ("ref", -9, (), False)}
+        if dself is not None:
+            env[-8] = dself
+            env[1] = ("ref", -8, (), False)
+        del asked[:]
+        rets = walk_returns(dview, env)
+        if os.environ.get("BW_DEBUG_MODEL"):
+            print("roles model:", name, "detect returns", [str(x)[:300] for x in rets], "asked", asked)
+        found = set()
+        for r0 in rets:
+            if r0[0] == "adt" and r0[2] == "Ok":
+                p0 = r0
+                for _ in range(2):
+                    p0 = next((x for k, x in p0[4] if k == "0"), CW.TOP)
+                    if p0[0] == "ref":
+                        p0 = CW.TOP
+                # Ok(Some(ValidatorType::Kind(boxed V)))
+                opt = next((x for k, x in r0[4] if k == "0"), CW.TOP)
+                if opt[0] == "adt" and opt[2] == "Some":
+                    vt = next((x for k, x in opt[4] if k == "0"), CW.TOP)
+                    if vt[0] == "adt" and vt[2] in ("Sync", "Async"):
+                        pv = next((x for k, x in vt[4] if k == "0"), CW.TOP)
+                        vadt = pv[2] if (pv[0] == "sym" and pv[1] == "boxed") else pv[1] if pv[0] == "adt" else None
+                        if vadt:
+                            found.add((vt[2].lower(), vadt))
+        if len(found) != 1:
+            return None
+        kind, vadt = next(iter(found))
+        validate = f.impl_method(r"ValidatorSync$" if kind == "sync" else r"ValidatorAsync$", vadt, "validate")
+        return {"detector_adt": det_adt, "detect": detect.id, "detect_self": dself, "detect_subst": dsub, "detect_keys": sorted(set(asked)),
+                "kind": kind, "validator_adts": [vadt], "validate": validate.id if validate else None, "by_model": True}
 
     def validator(self, name):
         return self.roles()["validators"].get(name)
